@@ -21,7 +21,18 @@ RULE = ('(1) the sets of stores to shared objects / bs4 objects are re-extracted
         'compile), thread B then compiles pB to completion, A resumes; for every pair (pA, pB) from a set that exercises each '
         'special pseudo-class handler; A\'s and B\'s results and the pattern cache afterwards must equal the sequential results; '
         'thorough adds two suspension points per run; (3) the same with select()/match() on one shared document, and (3b) with match / select / select_one / closest / filter on different documents and detached fragments (nth tests on a parentless root); (4) '
-        'free-running threads with a tiny switch interval as a smoke test. Non-trivial = schedules in which B runs while A is '
+        'free-running threads with a tiny switch interval as a smoke test; (5) general controlled schedules: calls that OVERLAP (A starts, '
+        'B starts, A ends, B ends — in (2)-(3b) B always runs from start to end inside A), two or three threads with one to three '
+        'suspension points each in any interleaving, compile / select / select_one / match / filter / closest, ordinary patterns and '
+        'machine-generated long ones (nesting of :not/:is/:where/:has 20-900 levels deep — below, and beyond, what one thread\'s stack '
+        'takes alone — long lists, compounds, combinator chains, attribute runs), long patterns suspended where their stack is deepest; '
+        'every call must give what it gives alone (value, or kind of exception), also when made again afterwards with the cache as '
+        'left behind, AND the interpreter-wide settings that are not soupsieve\'s (recursion limit, switch interval, int-digits limit, '
+        'warnings filters, locale, trace/profile hooks, sys.modules / sys.path / import hooks, std streams, except hooks, gc, cwd, '
+        'environment, signal handlers, time zone, global random state, builtins, logging root, bs4 class dictionaries, live threads, '
+        're cache) must be after the schedule what they were before it, and after a call that ran from start to end while the others '
+        'stood still what they were before that call; lines at which a call run alone has such a setting changed are found by the '
+        'tracer and used as suspension points; the same work load with free-running threads. Non-trivial = schedules in which B runs while A is '
         'inside the tokenizer or the parser loop (not before its first or after its last line).')
 
 PATTERNS = [':nth-child(2n+1)', ':lang(en, "de-*")', ':-soup-contains("x", y)', ':dir(rtl)', ':nth-of-type(3)', 'a > b.c[d=e]:not(f)',
@@ -81,14 +92,31 @@ class Paused(threading.Thread):
         self.done = threading.Event()
         self.result = None
         self.lines = 0
+        self.depth = self.maxdepth = 0      # frames of soupsieve code on this thread's stack (now / at most)
+        self.paused_at_depth = []
+        self.profile = []                   # (line count, depth) every 32 lines
+        self.watch = None                   # ambient_light() before the call: look for lines at which a setting differs
+        self.window = []
 
     def tracer(self, frame, event, arg):
         if not frame.f_code.co_filename.endswith(FILES) or '/soupsieve/' not in frame.f_code.co_filename:
             return None
+        if event == 'call':
+            self.depth += 1
+            if self.depth > self.maxdepth:
+                self.maxdepth = self.depth
+        elif event == 'return':
+            self.depth -= 1
         if event == 'line':
             self.count += 1
+            if not self.count & 31:
+                self.profile.append((self.count, self.depth))
+            if self.watch is not None and (self.count < 4096 or not self.count & 15) and len(self.window) < 4096 \
+                    and ambient_light() != self.watch:
+                self.window.append(self.count)
             if self.pauses and self.count == self.pauses[0]:
                 self.pauses.pop(0)
+                self.paused_at_depth.append(self.depth)
                 self.at.set()
                 self.go.wait()
                 self.go.clear()
@@ -131,6 +159,406 @@ def interleave(fa, fb, pauses):
         except BaseException as e:
             resb = ('exc', type(e).__name__, str(e).split('\n')[0])
     return a.result, resb, a.lines
+
+
+# ---------------------------------------------------------------------------------------------------------------------
+# (5) general controlled schedules (overlapping calls, two or three threads), machine-generated long patterns, and the
+#     interpreter-wide settings that are not soupsieve's own objects
+# ---------------------------------------------------------------------------------------------------------------------
+
+def ambient_light():
+    """The cheap part of ambient(): taken by a traced thread at (nearly) every line of a call that runs alone, to find the lines at
+    which the call has an interpreter-wide setting changed — the suspension points that matter for overlapping calls."""
+    import locale
+    return (sys.getrecursionlimit(), sys.getswitchinterval(), sys.get_int_max_str_digits(), threading.stack_size(),
+            id(warnings.filters), len(warnings.filters), id(warnings.showwarning), locale.setlocale(locale.LC_ALL),
+            id(sys.stdout), id(sys.stderr), id(sys.excepthook), len(sys.modules), len(sys.path), len(sys.meta_path),
+            id(getattr(threading, '_trace_hook', None)), id(getattr(threading, '_profile_hook', None)))
+
+
+def ambient():
+    """Snapshot of interpreter-wide state that does not belong to soupsieve but that a call could change (and put back):
+    everything here is shared by all threads of the interpreter.  Values are comparable with ==."""
+    import builtins
+    import gc
+    import locale
+    import logging
+    import os
+    import random as _random
+    import re
+    import signal
+    import time
+    s = {}
+    s['sys.getrecursionlimit()'] = sys.getrecursionlimit()
+    s['sys.getswitchinterval()'] = sys.getswitchinterval()
+    s['sys.get_int_max_str_digits()'] = sys.get_int_max_str_digits() if hasattr(sys, 'get_int_max_str_digits') else None
+    s['threading.stack_size()'] = threading.stack_size()
+    s['warnings.filters'] = tuple(warnings.filters)
+    s['warnings.filters (the list object)'] = id(warnings.filters)
+    s['warnings.showwarning / defaultaction'] = (id(warnings.showwarning), id(getattr(warnings, '_showwarnmsg_impl', None)),
+                                                 getattr(warnings, 'defaultaction', None))
+    try:
+        s['locale.setlocale(LC_ALL)'] = locale.setlocale(locale.LC_ALL)
+    except Exception as e:     # noqa: BLE001
+        s['locale.setlocale(LC_ALL)'] = repr(e)
+    s['threading trace / profile hooks'] = (id(getattr(threading, '_trace_hook', None)), id(getattr(threading, '_profile_hook', None)))
+    s['sys.gettrace() / sys.getprofile() of the controlling thread'] = (id(sys.gettrace()), id(sys.getprofile()))
+    s['sys.path'] = tuple(map(str, sys.path))
+    s['sys.meta_path / sys.path_hooks'] = (tuple(map(id, sys.meta_path)), tuple(map(id, sys.path_hooks)))
+    s['sys.stdin / stdout / stderr'] = (id(sys.stdin), id(sys.stdout), id(sys.stderr))
+    s['excepthooks'] = (id(sys.excepthook), id(sys.displayhook), id(sys.unraisablehook), id(threading.excepthook))
+    s['sys.dont_write_bytecode / tracebacklimit'] = (sys.dont_write_bytecode, getattr(sys, 'tracebacklimit', None))
+    s['gc enabled / threshold / debug'] = (gc.isenabled(), gc.get_threshold(), gc.get_debug())
+    s['os.getcwd()'] = os.getcwd()
+    s['os.environ'] = tuple(sorted(os.environ.items()))
+    s['signal handlers'] = tuple(id(signal.getsignal(x)) for x in (signal.SIGALRM, signal.SIGINT, signal.SIGTERM))
+    s['time.tzname / timezone'] = (time.tzname, time.timezone)
+    s['random.getstate()'] = hash(_random.getstate())
+    s['builtins'] = tuple(sorted((k, id(v)) for k, v in vars(builtins).items()))
+    s['logging root level / disable / handlers'] = (logging.root.level, logging.root.manager.disable, tuple(map(id, logging.root.handlers)),
+                                                   logging.raiseExceptions)
+    s['bs4 classes'] = tuple((c.__name__, tuple(sorted((k, id(v)) for k, v in vars(c).items())))
+                             for c in (bs4.PageElement, bs4.Tag, bs4.NavigableString, bs4.BeautifulSoup))
+    s['live threads'] = threading.active_count()
+    # grow-only tables: entries may be added by a call (lazy imports, compiled regular expressions), never removed or replaced
+    s['sys.modules'] = {k: id(v) for k, v in list(sys.modules.items())}
+    s['re cache'] = frozenset(getattr(re, '_cache', {}))
+    return s
+
+
+def ambient_diff(before, after):
+    """Names (with both values) of the interpreter-wide settings that differ between two snapshots."""
+    import re
+    out = []
+    for k, v in before.items():
+        w = after.get(k)
+        if k == 'sys.modules':
+            gone = sorted(m for m in v if m not in w)
+            swapped = sorted(m for m in v if m in w and w[m] != v[m])
+            if gone or swapped:
+                out.append({'setting': k, 'entries_removed': gone[:10], 'entries_replaced': swapped[:10]})
+        elif k == 're cache':
+            gone = [x for x in v if x not in w]
+            if gone and len(w) < getattr(re, '_MAXCACHE', 512):       # not explained by the cache's own eviction
+                out.append({'setting': k, 'entries_removed': len(gone), 'size_before': len(v), 'size_after': len(w)})
+        elif v != w:
+            if isinstance(v, tuple) and isinstance(w, tuple) and len(repr(v)) > 300:
+                only_b = [x for x in v if x not in w][:4]
+                only_a = [x for x in w if x not in v][:4]
+                out.append({'setting': k, 'only_before': repr(only_b)[:400], 'only_after': repr(only_a)[:400]})
+            else:
+                out.append({'setting': k, 'before': repr(v)[:300], 'after': repr(w)[:300]})
+    return out
+
+
+def ambient_restore(before):
+    """Put back what can be put back, so that one leak is not reported again by every later schedule."""
+    import locale
+    try:
+        sys.setrecursionlimit(before['sys.getrecursionlimit()'])
+        sys.setswitchinterval(before['sys.getswitchinterval()'])
+        if before['sys.get_int_max_str_digits()'] is not None:
+            sys.set_int_max_str_digits(before['sys.get_int_max_str_digits()'])
+        warnings.filters[:] = list(before['warnings.filters'])
+        locale.setlocale(locale.LC_ALL, before['locale.setlocale(LC_ALL)'])
+    except Exception:       # noqa: BLE001
+        pass
+
+
+STEP_LIMIT_S = 60
+
+
+def run_order(fns, pauses, order, watch=False):
+    """General controlled schedule.  Thread i runs fns[i] under the line tracer with the suspension points pauses[i] (counts of
+    lines executed inside soupsieve).  `order` says which thread is let run next — from its start or from where it is suspended,
+    until its next suspension point or its end; entries naming a finished thread are skipped; when `order` is used up, whoever
+    is not finished is let run in index order.  Exactly one thread runs at any time.
+    Returns (results, lines, steps taken, settings changed by a call that ran from start to end in ONE step)."""
+    ths = [Paused(f, list(p)) for f, p in zip(fns, pauses)]
+    if watch:
+        for t in ths:
+            t.watch = ambient_light()
+    started = [False] * len(ths)
+    steps, whole = [], []
+
+    def step(i):
+        t = ths[i]
+        if t.done.is_set():
+            return
+        fresh = not started[i]
+        before = ambient() if fresh else None
+        if fresh:
+            started[i] = True
+            t.start()
+        else:
+            t.at.clear()
+            t.go.set()
+        if not t.at.wait(STEP_LIMIT_S):
+            t.result = ('exc', 'LibraryDidNotTerminate', f'no progress for {STEP_LIMIT_S} s')
+            t.done.set()
+        steps.append(i)
+        if fresh and t.done.is_set():
+            # the whole call ran while every other thread stood still: it must have left every setting as it found it
+            d = ambient_diff(before, ambient())
+            if d:
+                whole.append({'thread': i, 'changed': d})
+    for i in order:
+        step(i)
+    while not all(t.done.is_set() for t in ths):
+        for i in range(len(ths)):
+            step(i)
+    for t in ths:
+        t.join(STEP_LIMIT_S)
+    run_order.maxdepth = [t.maxdepth for t in ths]
+    run_order.pause_depth = [max(t.paused_at_depth, default=0) for t in ths]
+    run_order.profile = [t.profile for t in ths]
+    run_order.window = [t.window for t in ths]
+    return [t.result for t in ths], [t.lines for t in ths], steps, whole
+
+
+WDOC_MARKUP = ('<html lang="en"><body><div id="d1" class="box"><p id="a">alpha</p><p id="b" class="k">beta</p>'
+               '<span id="s" lang="fr">x</span></div><div id="d2"><p id="c" class="k m">gamma</p><ul><li id="l1">1</li>'
+               '<li id="l2" class="k">2</li><li id="l3">3</li></ul><a href="#x" id="e">l</a></div></body></html>')
+_wdoc = []
+
+
+def wdoc():
+    if not _wdoc:
+        _wdoc.append(bs4.BeautifulSoup(WDOC_MARKUP, 'html.parser'))
+    return _wdoc[0]
+
+
+def flat(obj):
+    """Fingerprint of a selector structure, computed without recursion (the structures compared here may be nested
+    hundreds of levels deep, which ==, repr and pickle cannot walk)."""
+    import hashlib
+    from soupsieve import css_types as ct
+    h = hashlib.sha1()
+    n = 0
+    stack = [obj]
+    while stack:
+        o = stack.pop()
+        n += 1
+        if isinstance(o, ct.Immutable):
+            h.update(b'<' + type(o).__name__.encode())
+            stack.extend(getattr(o, k) for k in reversed(o.__slots__) if k != '_hash')
+        elif isinstance(o, (tuple, list)):
+            h.update(b'(%d' % len(o))
+            stack.extend(reversed(o))
+        elif isinstance(o, (ct.ImmutableDict, dict)):
+            h.update(b'{%d' % len(o))
+            for k, v in sorted(o.items(), key=repr):
+                stack.extend((v, k))
+        elif hasattr(o, 'pattern') and hasattr(o, 'flags'):
+            h.update(b'/' + repr((o.pattern, o.flags)).encode())
+        else:
+            h.update(b'=' + repr(o).encode('utf-8', 'backslashreplace'))
+    return f'{n}:{h.hexdigest()[:16]}'
+
+
+_frag = {}
+
+
+def make_call(spec):
+    """A call into the library from its JSON-able description; the value returned is a comparable account of the result."""
+    op, p = spec['op'], spec.get('pattern')
+    custom = CUSTOM if spec.get('custom') else None
+    if op == 'fragment':
+        if not _frag:
+            _frag.update(fragment_calls())      # one set of documents, so that results (element identities) are comparable
+        return _frag[spec['name']]
+    if op == 'compile':
+        def f():
+            c = sv.compile(p, custom=custom)
+            return (type(c).__name__, c.pattern == p, flat(c.selectors))
+        return f
+    soup = wdoc()
+
+    def ident(v):
+        if v is None or isinstance(v, bool):
+            return v
+        if isinstance(v, bs4.Tag):
+            return v.get('id') or v.name
+        return [e.get('id') or e.name for e in v]
+    if op == 'select':
+        return lambda: ident(sv.select(p, soup, custom=custom))
+    if op == 'select_one':
+        return lambda: ident(sv.select_one(p, soup, custom=custom))
+    if op == 'match':
+        return lambda: [ident(sv.match(p, e, custom=custom)) for e in soup.find_all('p')]
+    if op == 'filter':
+        return lambda: ident(sv.filter(p, soup.find_all(True), custom=custom))
+    if op == 'closest':
+        return lambda: ident(sv.closest(p, soup.find(id='l2'), custom=custom))
+    raise ValueError(op)
+
+
+def kind_of(res):
+    """What a call gave: its value, or the KIND of exception (the message of a RecursionError depends on where the stack ran out)."""
+    return res if res is None or res[0] == 'ok' else res[:2]
+
+
+# Nesting that the recursive-descent parser / matcher takes (alone) with a wide margin, and nesting that it does not take:
+# a thread stopped at its deepest point needs a few frames for the tracer itself, so the band next to the limit is left out.
+DEEP_OK = (150, 285)
+DEEP_FAIL = (345, 460)
+DEEP_FAR = (600, 900)
+
+
+def long_pattern(rng, band=None):
+    """A machine-generated selector: one of the long shapes a program (not a person) writes."""
+    shape = rng.choice(['nest', 'nest', 'nest', 'nest_mixed', 'list', 'compound', 'chain', 'nested_list', 'attrs']) if band is None else 'nest'
+    if shape in ('nest', 'nest_mixed'):
+        lo, hi = band or rng.choice([(20, 120), DEEP_OK, DEEP_OK, DEEP_FAIL, DEEP_FAIL, DEEP_FAR])
+        d = rng.randint(lo, hi)
+        fs = [':not(', ':is(', ':where(', ':has(> ', ':not(p, ', ':is(q, ']
+        if shape == 'nest':
+            f = rng.choice(fs[:4])
+            body = f * d
+        else:
+            body = ''.join(rng.choice(fs) for _ in range(d))
+        return rng.choice(['p', 'li', '*', 'div ', '']) + body + rng.choice(['.k', 'p', '[id]', ':nth-child(2n+1)', ':lang(fr)']) + ')' * d
+    if shape == 'list':
+        n = rng.randint(100, 400)
+        return ', '.join(f'x{i}' for i in range(n)) + rng.choice([', p.m', ', li:nth-child(2)', ', :lang(fr)'])
+    if shape == 'compound':
+        return 'p' + ''.join(f':not(.c{i})' for i in range(rng.randint(100, 300))) + '.k'
+    if shape == 'chain':
+        n = rng.randint(100, 280)
+        return ''.join(rng.choice(['* ', '* > ', 'html ', ':is(body, div) ']) for _ in range(n)) + 'li.k'
+    if shape == 'nested_list':
+        d = rng.randint(20, 90)
+        return 'p' + ':is(a, b, :not(c, ' * d + '.zz' + '))' * d
+    n = rng.randint(100, 300)
+    return 'p' + ''.join(f'[data-a{i}]' for i in range(n)) + ', ' + 'a' + ''.join(f'[href^="#"]' for i in range(n))
+
+
+def short_pattern(rng):
+    return rng.choice(PATTERNS + ['p.k', 'div > p', 'li:nth-child(2n+1)', ':lang(fr)', 'p:-soup-contains("beta")', 'div:has(> ul) p',
+                                  'li:nth-last-child(1)', '#d1 ~ div li', 'p:not(.k)', ':is(p, li):where(.k)', 'a:any-link', ':root :empty'])
+
+
+def gen_call(rng, long_p=0.5, band=None):
+    if band is not None or rng.random() < long_p:
+        p = long_pattern(rng, band)
+        return {'op': rng.choice(['compile', 'compile', 'select', 'match']), 'pattern': p}
+    p = short_pattern(rng)
+    return {'op': rng.choice(['compile', 'compile', 'select', 'select_one', 'match', 'filter', 'closest']), 'pattern': p, 'custom': True}
+
+
+def describe(spec):
+    p = spec.get('pattern') or spec.get('name')
+    return f"{spec['op']}({p if len(p) <= 60 else p[:40] + '…' + p[-12:] + f' [{len(p)} chars]'})"
+
+
+def alone(spec):
+    """The call on its own: in a thread of its own, under the same tracer, nothing else running, compiled afresh."""
+    sv.purge()
+    res, lines, _, _ = run_order([make_call(spec)], [[]], [0], watch=True)
+    top = run_order.maxdepth[0]
+    return kind_of(res[0]), lines[0], [k for k, d in run_order.profile[0] if d >= 0.92 * top], run_order.window[0]
+
+
+def controlled(specs, pauses, order, refs=None):
+    """Run one controlled schedule of the described calls; returns None when everything is as if the calls had run one at a
+    time, else the description of what is not."""
+    fns = [make_call(s) for s in specs]
+    if refs is None:
+        refs = [alone(s)[0] for s in specs]
+    sv.purge()
+    before = ambient()
+    res, lines, steps, whole = run_order(fns, pauses, order)
+    after = ambient()
+    controlled.pause_depth = max(run_order.pause_depth)
+    wrong = [i for i, r in enumerate(res) if kind_of(r) != refs[i]]
+    changed = ambient_diff(before, after)
+    later = []
+    if not wrong:
+        for i, s in enumerate(specs):           # afterwards, alone again, with the cache as the schedule left it
+            r, _, _, _ = run_order([fns[i]], [[]], [0])
+            if kind_of(r[0]) != refs[i]:
+                later.append({'call': i, 'alone': repr(refs[i])[:200], 'afterwards': repr(kind_of(r[0]))[:200]})
+    if changed or whole:
+        ambient_restore(before)
+    if not (wrong or changed or whole or later):
+        return None
+    what = []
+    if wrong:
+        what.append('a call gave something else than it gives alone')
+    if later:
+        what.append('a call made afterwards (alone, cache as left behind) gave something else than before')
+    if changed:
+        what.append('interpreter-wide settings were not left as they were found: ' + ', '.join(c['setting'] for c in changed))
+    if whole:
+        what.append('a call that ran from start to end while the other threads stood still changed interpreter-wide settings')
+    return {'what': 'controlled schedule: ' + '; '.join(what), 'calls': specs, 'described': [describe(s) for s in specs],
+            'suspension_points': pauses, 'order': order, 'steps_taken': steps,
+            'results': [repr(kind_of(r))[:200] for r in res], 'alone': [repr(r)[:200] for r in refs],
+            'settings_changed': changed, 'settings_changed_by_whole_call': whole, 'afterwards': later}
+
+
+def free_running(specs_per_thread, refs, rounds, switch=1e-6):
+    """Free-running threads on the described calls (fresh spellings, so that every call compiles).  Returns (problems, calls)."""
+    problems, ncalls = [], [0]
+    lock = threading.Lock()
+    before = ambient()
+    old = sys.getswitchinterval()
+    sys.setswitchinterval(switch)
+    try:
+        for rnd in range(rounds):
+            sv.purge()
+            start = threading.Barrier(len(specs_per_thread))
+
+            first_done = threading.Event()
+
+            def work(k, specs, rnd=rnd, first_done=first_done, start=start):
+                start.wait()
+                n = 0
+                # thread 0 goes through its calls once; the others keep going round theirs until it has finished
+                while n == 0 or (k and not first_done.is_set() and n < 40):
+                    for j, s in enumerate(specs):
+                        s2 = dict(s, pattern=s['pattern'] + ' ' * (1 + (rnd * 7 + k * 3 + j + n * 5) % 23))
+                        try:
+                            r = ('ok', make_call(s2)())
+                        except BaseException as e:      # noqa: BLE001
+                            r = ('exc', type(e).__name__)
+                        with lock:
+                            ncalls[0] += 1
+                            if r != refs[json.dumps(s, sort_keys=True)] and len(problems) < 50:
+                                problems.append({'call': describe(s), 'alone': repr(refs[json.dumps(s, sort_keys=True)])[:200],
+                                                 'concurrently': repr(r)[:200]})
+                    n += 1
+                if k == 0:
+                    first_done.set()
+            ts = [threading.Thread(target=work, args=(k, specs), daemon=True) for k, specs in enumerate(specs_per_thread)]
+            [t.start() for t in ts]
+            [t.join(STEP_LIMIT_S * 3) for t in ts]
+            sys.setswitchinterval(old)
+            changed = ambient_diff(before, ambient())
+            if changed:
+                problems.append({'settings_changed': changed, 'after_round': rnd})
+            if problems:
+                break
+            sys.setswitchinterval(switch)
+    finally:
+        sys.setswitchinterval(old)
+    return problems, ncalls[0]
+
+
+def free_alone(spec):
+    """Reference for the free-running part: same call depth as a worker thread's call, no tracer."""
+    sv.purge()
+    out = []
+
+    def work(k, specs):
+        try:
+            out.append(('ok', make_call(spec)()))
+        except BaseException as e:      # noqa: BLE001
+            out.append(('exc', type(e).__name__))
+    t = threading.Thread(target=work, args=(0, None), daemon=True)
+    t.start()
+    t.join(STEP_LIMIT_S * 3)
+    return out[0] if out else ('exc', 'LibraryDidNotTerminate')
 
 
 def run(chk):
@@ -213,6 +641,8 @@ def run(chk):
                     break
     # (3b) different documents and detached fragments through every entry point
     calls = fragment_calls()
+    _frag.clear()
+    _frag.update(calls)
     cpairs = [(a, b) for a in calls for b in calls if a is not b]
     if quick:
         cpairs = rng.sample(cpairs, 24) + [(calls[-2], calls[-1]), (calls[-1], calls[-2]), (calls[-1], calls[-1])]
@@ -229,6 +659,132 @@ def run(chk):
                             'thread_A': na, 'thread_B': nb, 'A_suspended_after_line': [k], 'A_result': repr(ra), 'A_alone': repr(refa),
                             'B_result': repr(rb), 'B_alone': repr(refb)})
                 break
+    # (5) general schedules: calls that OVERLAP (A starts, B starts, A ends, B ends — above, B always ran from start to end inside
+    #     A), two or three threads, ordinary and machine-generated long patterns; besides the results, the interpreter-wide
+    #     settings (recursion limit, warnings filters, locale, sys.modules, …) must be as they were before the schedule
+    import time
+    t5 = time.time()
+    amb0 = ambient()
+    over = {'schedules': 0, 'overlapping': 0, 'three_threads': 0, 'long_patterns': 0, 'long_fail_alone': 0,
+            'suspended_deeper_than_700_frames': 0, 'calls_that_change_a_setting_midway': 0, 'suspended_inside_a_changed_setting': 0,
+            'violations': 0}
+    gbad = []
+    ref_cache = {}
+
+    def ref_of(spec):
+        key = json.dumps(spec, sort_keys=True)
+        if key not in ref_cache:
+            ref_cache[key] = alone(spec)
+            over['calls_that_change_a_setting_midway'] += bool(ref_cache[key][3])
+        return ref_cache[key]
+
+    def orders(n, pauses):
+        """A random interleaving of the threads' segments in which some thread runs while another is suspended."""
+        segs = [i for i in range(n) for _ in range(len(pauses[i]) + 1)]
+        for _ in range(20):
+            rng.shuffle(segs)
+            if any(segs[j] != segs[j + 1] and segs[j] in segs[j + 1:] for j in range(len(segs) - 1)):
+                break
+        return list(segs)
+
+    def try_schedule(specs, pauses, order):
+        refs = [ref_of(s)[0] for s in specs]
+        b = controlled(specs, pauses, order, refs)
+        over['schedules'] += 1
+        first = {}
+        for pos, i in enumerate(order):
+            first.setdefault(i, pos)
+        last = {i: len(order) - 1 - order[::-1].index(i) for i in first}
+        if any(first[i] < first[j] < last[i] < last[j] for i in first for j in first if i != j):
+            over['overlapping'] += 1
+        over['three_threads'] += len(specs) > 2
+        over['suspended_deeper_than_700_frames'] += controlled.pause_depth > 700
+        if b:
+            over['violations'] += 1
+            if len(gbad) < 80:
+                gbad.append(b)
+        return b
+
+    def pick_pauses(spec, n):
+        _, lines, deepest, window = ref_of(spec)
+        if window and rng.random() < 0.6:
+            # lines at which the call, run alone, had an interpreter-wide setting changed: suspend it there
+            over['suspended_inside_a_changed_setting'] += 1
+            return sorted(rng.sample(window, min(n, len(window))))
+        if deepest and len(spec.get('pattern', '')) > 200 and rng.random() < 0.7:
+            # a long pattern: suspended where its stack is (nearly) at its deepest
+            return sorted(rng.sample(deepest, min(n, len(deepest))))
+        return sorted(rng.sample(range(1, lines + 1), min(n, lines)))
+    # (5a) ordinary patterns, compile × compile, overlapping
+    opairs = [(a, b) for a in PATTERNS for b in PATTERNS if a != b]
+    for pa, pb in rng.sample(opairs, 10 if quick else 60):
+        sa, sb = {'op': 'compile', 'pattern': pa, 'custom': True}, {'op': 'compile', 'pattern': pb, 'custom': True}
+        for _ in range(8 if quick else 40):
+            if try_schedule([sa, sb], [pick_pauses(sa, 1), pick_pauses(sb, 1)], [0, 1, 0, 1]):
+                break
+    # (5a') calls that, run alone, have an interpreter-wide setting changed at some of their lines: every such call next to a few
+    #       others of them, both suspended at such a line (however few these lines are)
+    wspecs = [{'op': 'compile', 'pattern': p, 'custom': True} for p in PATTERNS] + [
+        {'op': op, 'pattern': p, 'custom': True} for op, p in (('select', 'p.k'), ('match', 'p:nth-child(2)'), ('filter', ':lang(fr)'),
+                                                               ('closest', 'div:has(li)'), ('select_one', 'p:-soup-contains("beta")'))]
+    withwin = [s for s in wspecs if ref_of(s)[3]]
+    for sa in withwin:
+        for sb in rng.sample(withwin, min(len(withwin), 3 if quick else 8)):
+            over['suspended_inside_a_changed_setting'] += 1
+            try_schedule([sa, sb], [[rng.choice(ref_of(sa)[3])], [rng.choice(ref_of(sb)[3])]], [0, 1, 0, 1])
+    t5a = time.time()
+    # (5b) every entry point on different documents / detached fragments, overlapping
+    fspecs = [{'op': 'fragment', 'name': n} for n, _ in calls if '<fresh>' not in n]
+    for _ in range(10 if quick else 80):
+        sa, sb = rng.sample(fspecs, 2)
+        for _ in range(3 if quick else 10):
+            if try_schedule([sa, sb], [pick_pauses(sa, 1), pick_pauses(sb, 1)], [0, 1, 0, 1]):
+                break
+    t5b = time.time()
+    # (5c) one call that needs (nearly, or more than) the whole stack next to an ordinary one, both orders of starting
+    for band in ([DEEP_OK, DEEP_FAIL] if quick else [DEEP_OK, DEEP_FAIL, DEEP_OK, DEEP_FAIL, DEEP_FAR, (20, 120)] * 3):
+        deep = gen_call(rng, band=band)
+        light = gen_call(rng, long_p=0.0)
+        over['long_patterns'] += 1
+        over['long_fail_alone'] += ref_of(deep)[0][0] != 'ok'
+        for specs in ([light, deep], [deep, light]):
+            for _ in range(3 if quick else 8):
+                pauses = [pick_pauses(s, 1) for s in specs]
+                if try_schedule(specs, pauses, [0, 1, 0, 1]):
+                    break
+    t5c = time.time()
+    # (5d) random mixes: two or three threads, any of the long shapes, one to three suspension points each, any interleaving
+    for _ in range(8 if quick else 120):
+        n = 3 if rng.random() < 0.3 else 2
+        specs = [gen_call(rng, long_p=0.5) for _ in range(n)]
+        for s in specs:
+            if len(s['pattern']) > 200:
+                over['long_patterns'] += 1
+                over['long_fail_alone'] += ref_of(s)[0][0] != 'ok'
+        pauses = [pick_pauses(s, 1 if quick else rng.randint(1, 3)) for s in specs]
+        try_schedule(specs, pauses, orders(n, pauses))
+    t5d = time.time()
+    kinds = {}
+    for b in gbad:
+        kinds.setdefault(b['what'], []).append(b)
+    over['kinds_of_violation'] = {k: len(v) for k, v in kinds.items()}
+    picked = [v[0] for v in kinds.values()] + [b for v in kinds.values() for b in v[1:]]       # one of every kind first
+    bad.extend(picked[:5])
+    # (5e) free-running threads on the same kind of work load: one thread with long patterns, three with ordinary ones
+    heavy = [gen_call(rng, band=b) for b in (DEEP_OK, DEEP_OK, DEEP_FAIL, DEEP_FAIL, DEEP_FAR)] + [gen_call(rng, long_p=1.0) for _ in range(2)]
+    lights = [[gen_call(rng, long_p=0.0) for _ in range(12)] for _ in range(3)]
+    for s in heavy:
+        s['op'] = rng.choice(['compile', 'select'])
+    frefs = {json.dumps(s, sort_keys=True): free_alone(s) for s in heavy + sum(lights, [])}
+    fprob, fcalls = free_running([heavy] + lights, frefs, 3 if quick else 60)
+    if fprob:
+        bad.append({'what': 'free-running threads (one compiling long machine-generated patterns, three compiling ordinary ones): a call gave '
+                            'something else than it gives alone, or interpreter-wide settings were not left as they were found',
+                    'free_running': {'threads': [heavy] + lights, 'rounds': 3 if quick else 60}, 'problems': fprob[:6], 'count': len(fprob)})
+    ambient_restore(amb0)
+    over['seconds_5a_5b_5c_5d_5e'] = [round(x, 1) for x in (t5a - t5, t5b - t5a, t5c - t5b, t5d - t5c, time.time() - t5d)]
+    chk.coverage.update({'general_schedules': over, 'free_running_mixed_calls': fcalls,
+                         'interpreter_wide_settings_watched': sorted(amb0)})
     # (4) free-running smoke test
     old = sys.getswitchinterval()
     sys.setswitchinterval(1e-6)
@@ -275,6 +831,20 @@ def replay(chk, path):
         ok = ra == ('ok', refa) and rb == ('ok', refb)
         print(json.dumps({'ok': ok}))
         if not ok:
+            print(f'VIOLATION property={PID} replay={path}')
+            return 1
+    elif 'calls' in data and 'order' in data:
+        b = controlled(data['calls'], data['suspension_points'], data['order'])
+        print(json.dumps({'ok': b is None, 'found': b and {k: b[k] for k in ('what', 'results', 'alone', 'settings_changed', 'afterwards')}}, default=repr))
+        if b:
+            print(f'VIOLATION property={PID} replay={path}')
+            return 1
+    elif 'free_running' in data:
+        threads = data['free_running']['threads']
+        frefs = {json.dumps(s, sort_keys=True): free_alone(s) for s in sum(threads, [])}
+        prob, n = free_running(threads, frefs, max(40, 10 * data['free_running']['rounds']))
+        print(json.dumps({'ok': not prob, 'calls': n, 'problems': prob[:4]}, default=repr))
+        if prob:
             print(f'VIOLATION property={PID} replay={path}')
             return 1
     elif str(data.get('what', '')).startswith('a call on one tree'):
